@@ -2,13 +2,17 @@
 package main
 
 import (
+	"bufio"
 	"bytes"
+	"context"
 	"fmt"
 	"io"
+	"net"
 	"net/http"
 	"net/url"
 	"strings"
 	"sync"
+	"time"
 
 	"github.com/gobwas/ws"
 	"github.com/gobwas/ws/wsutil"
@@ -420,12 +424,18 @@ func subHandshakeCut() mon.Sub {
 			var headLen int
 			for off := 0; ; off++ {
 				stop := false
-				for fl := 0; fl < 3; fl++ {
+				for fl := 0; fl < 5; fl++ {
 					c.Count(1)
 					p := plans[(off+fl)%len(plans)]
 					var endErr error = io.EOF
 					if fl == 2 {
 						endErr = xport.ErrInjected
+					}
+					if fl >= 3 {
+						// flavours 3, 4: the transport ends the response with a TIMEOUT of its own (a deadline set by a
+						// layer below, a stalled peer) and the handshake runs through Dial under a context that is
+						// still alive afterwards - Background, or a cancellable one
+						endErr = xport.ErrTimeout
 					}
 					conn := &fakeconn.Script{}
 					conn.Respond = func(written []byte) []byte { return nil }
@@ -443,7 +453,25 @@ func subHandshakeCut() mon.Sub {
 						full = r.Head()
 						return full
 					}, plan: p, off: off, endErr: endErr, eofWithData: fl == 1}
-					br, _, err := d.Upgrade(rw, u)
+					var br *bufio.Reader
+					var err error
+					if fl >= 3 {
+						cc := &cutConn{cutRW: rw}
+						d.NetDial = func(ctx context.Context, network, addr string) (net.Conn, error) { return cc, nil }
+						ctx := context.Background()
+						if fl == 4 {
+							var cancel context.CancelFunc
+							ctx, cancel = context.WithCancel(ctx)
+							defer cancel()
+						}
+						_, br, _, err = d.Dial(ctx, "ws://cut.example/x")
+						if err != nil && off < len(full) && !cc.closed {
+							c.Fail("handshake/response-cut-not-closed", fmt.Sprintf("Dial failed (%v) for a response cut at byte %d and left the connection open", err, off), nil)
+							return
+						}
+					} else {
+						br, _, err = d.Upgrade(rw, u)
+					}
 					headLen = len(full)
 					if off >= headLen {
 						stop = true
@@ -468,6 +496,19 @@ func subHandshakeCut() mon.Sub {
 		},
 	}
 }
+
+// cutConn makes a net.Conn of a cutRW (for Dialer.NetDial); deadlines are accepted and have no effect.
+type cutConn struct {
+	*cutRW
+	closed bool
+}
+
+func (c *cutConn) Close() error                     { c.closed = true; return nil }
+func (c *cutConn) LocalAddr() net.Addr              { return &net.TCPAddr{} }
+func (c *cutConn) RemoteAddr() net.Addr             { return &net.TCPAddr{} }
+func (c *cutConn) SetDeadline(time.Time) error      { return nil }
+func (c *cutConn) SetReadDeadline(time.Time) error  { return nil }
+func (c *cutConn) SetWriteDeadline(time.Time) error { return nil }
 
 type cutRW struct {
 	build       func(req []byte) []byte
